@@ -128,6 +128,12 @@ def correspondence(res, tier, rng):
                                    initial_field=1.0, start_time=0.0, parameters=par, unique=True)
         for j, (backend, bath) in enumerate(zip(mft._backend_instance._backend_list, baths)):
             north, west = bath.north_degeneracy_map, bath.west_degeneracy_map
+            maps = backend._degeneracy_maps
+            res.case("mft-maps:%d:%d" % (i, j), True, None)
+            if maps is None or len(maps) != 2 or not np.array_equal(maps[0], north) \
+                    or not np.array_equal(maps[1], west):
+                res.disagree("MeanFieldTempo(unique=True): species %d does not use its own bath's "
+                             "degeneracy maps" % j, {"eigenvalues": [ev_a, ev_b], "species": j})
             npos = [int(np.where(north == c)[0][0]) for c in range(north.max() + 1)]
             wpos = [int(np.where(west == c)[0][0]) for c in range(west.max() + 1)]
             for dk in (0, 1, 2):
@@ -221,19 +227,27 @@ def search_mft(res):
     """mean-field TEMPO with two species coupled to baths of different degeneracy structure"""
     import oqupy
     from oqupy import operators as op
-    for (ea, eb) in [([1.0, 0.0], [0.0, 1.0]), ([0.5, -0.5], [1.0, 0.0])]:
+    for (ea, eb) in [([1.0, 0.0], [0.0, 1.0]), ([0.5, -0.5], [1.0, 0.0]),
+                     ([0.0, 1.0, 3.0], [0.0, 2.0, 3.0])]:
         out = {}
         for unique in (False, True):
             baths = [oqupy.Bath(np.diag(np.array(e, dtype=complex)), oqupy.PowerLawSD(0.3, 1.0, 3.0))
                      for e in (ea, eb)]
+            d = len(ea)
+            hx = np.zeros((d, d), dtype=complex)
+            for k in range(d - 1):
+                hx[k, k + 1] = hx[k + 1, k] = 1.0
+            hz = np.diag(np.arange(d, dtype=complex) - (d - 1) / 2)
             tsys = oqupy.TimeDependentSystemWithField(
-                lambda t, a: 0.5 * op.sigma("x") + 0.1 * np.real(a) * op.sigma("z"))
-            mfs = oqupy.MeanFieldSystem([tsys, tsys], lambda t, st, a: -0.1j * a + 0.05 * np.trace(op.sigma("x") @ st[0]))
+                lambda t, a, hx=hx, hz=hz: 0.5 * hx + 0.1 * np.real(a) * hz)
+            mfs = oqupy.MeanFieldSystem([tsys, tsys], lambda t, st, a, hx=hx: -0.1j * a + 0.05 * np.trace(hx @ st[0]))
             par = oqupy.TempoParameters(dt=0.1, epsrel=1e-10, dkmax=3)
+            r0 = np.zeros((d, d), dtype=complex); r0[0, 0] = 1.0
+            r1 = np.full((d, d), 1.0 / d, dtype=complex)
             mft = oqupy.MeanFieldTempo(mean_field_system=mfs, bath_list=baths,
-                                       initial_state_list=[op.spin_dm("z+"), op.spin_dm("x+")],
+                                       initial_state_list=[r0, r1],
                                        initial_field=1.0, start_time=0.0, parameters=par, unique=unique)
-            dyn = mft.compute(0.45, progress_type="silent")
+            dyn = mft.compute(0.45 if d == 2 else 0.25, progress_type="silent")
             out[unique] = [np.array(d.states) for d in dyn.system_dynamics]
         err = max(np.abs(a - b).max() for a, b in zip(out[True], out[False]))
         if err > 1e-7:
